@@ -168,6 +168,22 @@ def gen_case(rng):
         for v in gen_ctype_headers(rng):
             headers.append(["Content-Type", v])
         body = rng.random() < 0.85
+    if rng.random() < 0.4:
+        # other client-controlled headers with attacker values: the decision must not depend on
+        # them (proxy-style host / address headers are as forgeable as anything else)
+        onet = ""
+        if origin:
+            try:
+                onet = urllib.parse.urlsplit(origin).netloc
+            except ValueError:
+                onet = ""
+        vals = [v for v in (onet, onet.lower(), "evil.example", "evil.example:6680", host or "localhost", "127.0.0.1",
+                            f"host={onet or 'evil.example'};proto=http", "for=127.0.0.1") if v]
+        for _ in range(rng.randint(1, 3)):
+            name = rng.choice(["X-Forwarded-Host", "X-Forwarded-Host", "Forwarded", "X-Forwarded-For", "X-Real-IP",
+                               "X-Forwarded-Proto", "X-Forwarded-Server", "X-Original-Host", "X-Host", "X-Forwarded-Port",
+                               "Referer", "Via"])
+            headers.append([name, rng.choice(vals)])
     rng.shuffle(headers)
     case = {"kind": kind, "csrf": csrf, "allow_cfg": allow_cfg, "headers": headers, "body": body,
             "version": version}
@@ -559,6 +575,9 @@ def http_stage(chk, cases):
     for case in cases:
         obs = run_http_case(case)
         chk.dist(f"http:{case['kind']}:csrf={'on' if case['csrf'] else 'off'}:{obs['status']}")
+        if any(n.lower().startswith(("x-forwarded", "forwarded", "x-real", "x-orig", "x-host", "via", "referer"))
+               for n, _v in case["headers"]):
+            chk.dist("http:with-forged-proxy-headers")
         for mon, what in py_monitors(case, obs):
             chk.monitor_failure(mon, mon_key(mon, case, obs), what, {"case": case, "observed": obs})
         if obs["acao_n"] > 1:
